@@ -189,6 +189,57 @@ theorem packedLegs_complete (kmax : Nat) (ml : List K) (extraMain acBase : Nat) 
       simp only [List.append_nil, List.mem_singleton] at hx
       rw [hx, hout]; ring
 
+/-- Step operands of a packed row seen as one chain: step 0 uses the lane's own `a`, `c` cells, step
+`t ≥ 1` the extra columns. -/
+def rowA (a0 : K) (ml : List K) (acBase : Nat) : Nat → K
+  | 0 => a0
+  | t + 1 => legA ml acBase (t + 1)
+
+def rowC (c0 : K) (ml : List K) (acBase : Nat) : Nat → K
+  | 0 => c0
+  | t + 1 => legC ml acBase (t + 1)
+
+theorem hchain_congr (b : K) (A C A' C' : Nat → K) :
+    ∀ n s x, (∀ t, s ≤ t → A t = A' t ∧ C t = C' t) → hchain b A C n s x = hchain b A' C' n s x := by
+  intro n
+  induction n with
+  | zero => intro s x _; rfl
+  | succ n ih =>
+    intro s x h
+    simp only [hchain]
+    rw [(h s (Nat.le_refl _)).1, (h s (Nat.le_refl _)).2]
+    exact ih (s + 1) _ (fun t ht => h t (by omega))
+
+/-- **A packed Horner row of any arity `kk ≥ 2` (D = 1) is `kk` chained single steps.** `prev` is the
+accumulator the row starts from (the previous row's `out`), `first` the value the inter-row
+constraint produces for the first two steps (`out` itself when `kk = 2`, the first intermediate
+cell otherwise): if that constraint holds (`hfirst`), the `b²` column is `b·b`, and every intra-row
+leg vanishes, then `out` is the value of the `kk`-step chain. -/
+theorem packed_row_sound (kmax : Nat) (ml : List K) (extraMain acBase : Nat) (prev a0 c0 b out sel : K)
+    (hs : sel ≠ 0) (kk : Nat) (hk : 2 ≤ kk)
+    (hfirst : prev * (b * b) + c0 * b - a0 * b + legC ml acBase 1 - legA ml acBase 1 =
+      (if kk = 2 then out else legI ml extraMain 0))
+    (hlegs : ∀ x ∈ packedLegs 1 kmax (ExtKind.base : ExtKind K) ml extraMain acBase [b] [b * b] [out] sel kk
+        (kk + 1) 2 0, x = 0) :
+    out = hchain b (rowA a0 ml acBase) (rowC c0 ml acBase) kk 0 prev := by
+  have h2 : hchain b (rowA a0 ml acBase) (rowC c0 ml acBase) 2 0 prev =
+      prev * (b * b) + c0 * b - a0 * b + legC ml acBase 1 - legA ml acBase 1 := by
+    simp only [hchain, rowA, rowC]; ring
+  by_cases hk2 : kk = 2
+  · subst hk2
+    rw [h2, hfirst, if_pos rfl]
+  · rw [if_neg hk2] at hfirst
+    have hk3 : 2 < kk := by omega
+    have := packedLegs_sound kmax ml extraMain acBase b out sel hs kk (kk + 1) 2 0 hk3 (by omega) hlegs
+    have e : kk = 2 + (kk - 2) := by omega
+    rw [e, hchain_add, h2, hfirst]
+    rw [this]
+    simp only [Nat.zero_add]
+    exact hchain_congr b _ _ _ _ (kk - 2) 2 _ (fun t ht => by
+      cases t with
+      | zero => omega
+      | succ t => simp [rowA, rowC])
+
 end PackedAny
 
 end P3R.C11
